@@ -170,6 +170,28 @@ def run(ctx):
                 gx = translate.evaluate_select(irall, "resample_rows_log_likelihood", B) if hasattr(translate, "evaluate_select") else None
             except Exception as e:
                 tie["resample_probs"] = [False, repr(e)]
+    # single precision, log-likelihoods of magnitude 3e6 that are EXACTLY representable (steps of 0.25), log q = log pi = 0, beta 0 -> 1:
+    # the incremental log-weights are exact in float32, so the probability vector can and must be accurate — whatever is added to or
+    # subtracted from them on the way must not cost resolution
+    for nsname in ("numpy", "torch", "jax"):
+        xp = NS[nsname]
+        n8 = 8
+        ll8 = [-3.0e6 + 0.25 * k for k in range(n8)]
+        s8 = SMCSamples(np.arange(n8, dtype=float).reshape(n8, 1), log_likelihood=ll8, log_prior=[0.0] * n8, log_q=[0.0] * n8, beta=0.0, xp=xp,
+                        dtype=nsutil.native_dtype(nsname, "float32"))
+        spy8 = SpyRng(list(range(n8)))
+        ctx.count(("exact-float32", nsname), True, kind=f"{nsname}/float32/exactly-representable-large")
+        case8 = {"ns": nsname, "dtype": "float32", "N": n8, "ll": ll8, "beta": 0.0, "beta_new": 1.0}
+        try:
+            s8.resample(1.0, rng=spy8)
+            p8 = np.asarray(spy8.calls[0]["p"], float)
+            e8 = np.exp(np.asarray(ll8) - max(ll8))
+            want8 = e8 / e8.sum()
+            if np.max(np.abs(p8 - want8) / want8) > 1e-4:
+                ctx.violation(f"probabilities:exact-float32:{nsname}", f"p = {np.round(p8, 4).tolist()} but the normalised incremental weights are {np.round(want8, 4).tolist()} "
+                              "(every log-weight is exactly representable in float32)", case8)
+        except Exception as e:
+            ctx.violation(f"resample-raises:exact-float32:{type(e).__name__}", f"resample raised {e!r:.200}", case8)
     # same temperature and no size: the population itself
     s = SMCSamples(np.zeros((3, 1)), log_likelihood=[0, 1, 2], log_prior=[0, 0, 0], log_q=[0, 0, 0], beta=0.5, xp=NS["numpy"])
     if s.resample(0.5) is not s:
